@@ -359,4 +359,5 @@ def run(cx):
     r.check(vals == ["length + 1", "length - 1"], "tracked-list/length-counter-follows-append-remove", (pm, psl), f"length counter updates: {vals}")
     sz = [n for n in walk_local(ha) if isinstance(n, ast.If) and "expected != new_length" in norm(n.test) and any(isinstance(x, ast.Raise) for x in n.body)]
     from . import c03
+    c03.evaluator_no_alias(r, pm)
     r.check(len(sz) == 1 and c03.list_size_guard_ok(pm), "_handle_assignment_ast/size-mismatch-rejected", (pm, ha), "re-assigning a list with a different static length must be rejected (the tracked length feeds folded len())")
